@@ -231,7 +231,8 @@ def part_backends(sh, res):
 def part_positions(sh, res):
     """names in WHERE / UPDATE / EXCEPT / ORDER BY positions, direct mode, header-never-data, triples"""
     rb = tree.load()
-    names = [n for n in all_names(1) if not excluded(n)] + ['x7', 'x ', ' x', '\\"', '"\\', "''", '[]', '].', 'é_']
+    names = [n for n in all_names(1) if not excluded(n)] + ['x7', 'x ', ' x', '\\"', '"\\', "''", '[]', '].', 'é_', 'last, first', 'a,b,c', ', ']
+    jsbatch, jsmeta = [], []
     for n1 in names:
         for n2 in names:
             if n1 == n2:
@@ -246,6 +247,8 @@ def part_positions(sh, res):
                 ('order', 'select a[%s] order by a[%s] desc' % (v2, v), [['c2r%d' % i] for i in (3, 2, 1)]),
             ]
             for label, text, exp in cases:
+                jsbatch.append({'op': 'query', 'query': text, 'input': ROWS, 'input_names': hdr})
+                jsmeta.append((label, text, exp, hdr))
                 got = drive.run_py(text, qcheck.copy_table(ROWS), None, hdr, None)
                 res.evaluations += 1
                 res.traces += 1
@@ -256,6 +259,16 @@ def part_positions(sh, res):
                 else:
                     res.feat('position_' + label)
                     res.nontrivial += 1
+    from vf import js
+    if js.available():
+        for (label, text, exp, hdr), o in zip(jsmeta, js.run_batch(jsbatch)):
+            got = qcheck.js_got(o)
+            res.evaluations += 1
+            res.traces += 1
+            if got['error'] is not None or got['records'] != exp:
+                res.violation('js:name-binds-wrong-column', {'backend': 'js-table', 'position': label, 'header': hdr, 'query': text}, exp, {'records': got['records'], 'error': got['error']})
+            else:
+                res.feat('js_position_' + label)
     # column-name variables used only inside an f-string (the engine scans the raw query text for them on purpose)
     fnames = ['x', 'Y', 'x7', '_x', 'col_1']
     for n1 in fnames:
@@ -591,12 +604,12 @@ def main(tier, seed):
     res = core.run_shards('vf.checks.c09', shards)
     return core.finish(PID, tier, seed, res, t0,
         rule='all names of length 1-2 over 16 atoms; every ordered pair of distinct names as a 2-column header through query_table with a["n"], a[\'n\'] and a.n; a subset of pairs (all single-atom pairs, each 2-atom name against 3 decoys and its confusable partners) through '
-             'query_csv (quoted_rfc files, also b["n"] through a JOIN file), pandas and sqlite; names in WHERE / UPDATE / EXCEPT / ORDER BY; bare names in direct mode; header triples; `select NR, a1` on all 4 backends; WITH modifier x caller flag x 6 queries (differential); JOIN ON over 16 key names x 16 x key positions x every spelling pair (aN, a.n, a["n"], a[\'n\']) x both operand orders x INNER/LEFT, Python and rbql-js; '
+             'query_csv (quoted_rfc files, also b["n"] through a JOIN file), pandas and sqlite; names (incl. names with commas) in WHERE / UPDATE / EXCEPT / ORDER BY through rbql-py and rbql-js; bare names in direct mode; header triples; `select NR, a1` on all 4 backends; WITH modifier x caller flag x 6 queries (differential); JOIN ON over 16 key names x 16 x key positions x every spelling pair (aN, a.n, a["n"], a[\'n\']) x both operand orders x INNER/LEFT, Python and rbql-js; '
              'non-trivial = the name is not identifier-like / the modifier contradicts the caller flag',
         assumptions=['names containing an a.ident / b.ident token are excluded (the quantifier)', 'the name inside a["..."] is written with the canonical escapes (backslash, quote, \\n, \\r, \\t)'],
         extra={'names': len(names), 'backend_pairs': npairs},
         min_features={'table_dq': 50000, 'table_sq': 50000, 'table_attr': 500, 'csv_dq': 300, 'pandas_dq': 300, 'sqlite_dq': 300, 'csv_join': 300, 'direct_mode_bare': 50, 'triples': 100, 'header_not_data': 20,
-                      'with_overrides_opposite_flag': 50, 'variable_like_names': 300, 'fstring_names': 40, 'js_table_dq': 50000, 'js_table_sq': 50000, 'js_with_override': 100, 'position_update': 100, 'join_on_ab': 5000, 'join_on_ba': 5000, 'js_join_on_ba': 5000, 'join_on_spelling_dq_sq': 1000})
+                      'with_overrides_opposite_flag': 50, 'variable_like_names': 300, 'fstring_names': 40, 'js_table_dq': 50000, 'js_table_sq': 50000, 'js_with_override': 100, 'position_update': 100, 'js_position_except': 100, 'js_position_update': 100, 'join_on_ab': 5000, 'join_on_ba': 5000, 'js_join_on_ba': 5000, 'join_on_spelling_dq_sq': 1000})
 
 
 def replay(rep):
